@@ -695,6 +695,10 @@ fn run_bindgen(header: &str, flags: &[String], cfg: (bool, bool)) -> drive::GenO
     if cfg.1 {
         all.push("--sort-semantically".into());
     }
+    // clang-sys would spawn `clang --version` and `clang -E -v` for every run
+    if !flags.iter().any(|f| f == "--no-include-path-detection") {
+        all.push("--no-include-path-detection".into());
+    }
     all.extend_from_slice(flags);
     drive::generate_with_flags(&all, None)
 }
@@ -705,7 +709,7 @@ fn run_whole_program(args: &Args, st: &mut Stats) {
     let mut inputs: Vec<(String, String, Vec<String>)> = vec![]; // (label, header path, flags)
     // repository headers
     let mut repo = util::repo_headers();
-    let nrepo = if args.thorough() { repo.len() } else { 90 };
+    let nrepo = if args.thorough() { repo.len() } else { 120 };
     // always keep the headers that exercise the passes; sample the rest
     let mut chosen: Vec<(PathBuf, Vec<String>)> = vec![];
     repo.retain(|(p, f)| {
@@ -726,7 +730,18 @@ fn run_whole_program(args: &Args, st: &mut Stats) {
             None => *st.skipped.entry("repo-header-with-side-effect-flags".into()).or_insert(0) += 1,
         }
     }
-    let ngen = if args.thorough() { 600 } else { 90 };
+    // corpus first: minimised past findings (`// bindgen-flags:` line as in the repository headers)
+    let corpus = PathBuf::from(std::env::var("VERIF_DIR").unwrap_or_else(|_| "/verif".into())).join("corpus/C18");
+    let mut corpus_files: Vec<PathBuf> = std::fs::read_dir(&corpus).map(|d| d.filter_map(|e| e.ok()).map(|e| e.path()).collect()).unwrap_or_default();
+    corpus_files.sort();
+    for p in corpus_files {
+        let text = std::fs::read_to_string(&p).unwrap_or_default();
+        if let Some(l) = text.lines().find_map(|l| l.strip_prefix("// bindgen-flags:")) {
+            inputs.insert(0, (format!("corpus:{}", p.file_name().unwrap().to_string_lossy()), p.to_string_lossy().into_owned(), util::shell_split(l)));
+            *st.hist.entry("wp:corpus".into()).or_insert(0) += 1;
+        }
+    }
+    let ngen = if args.thorough() { 1500 } else { 150 };
     for i in 0..ngen {
         let (text, flags) = gen_header(&mut rng, &mut st.hist);
         let p = scratch.path(&format!("gen{i}.hpp"));
